@@ -15,7 +15,7 @@ def tail(path, n=1):
     except OSError:
         return []
 ver = {"verified_here": True,
-       "base_commit_of_repo": subprocess.check_output(["git", "-C", "/tmp/seed/wt" + nn, "log", "--format=%h", "-1"]).decode().strip(),
+       "base_commit_of_repo": subprocess.check_output(["git", "-C", "/repo", "log", "--format=%h", "-1"]).decode().strip(),
        "how": "tools/verify_seed.sh %s: demo run with PYTHONPATH=<worktree with patch>/src (must fail) and /repo/src (must pass); "
               "full pytest suite in the patched worktree; checks run with FPARSER_SRC=<patched worktree>/src" % nn,
        "demo_with_change_tail": tail("/tmp/seed/C%s.demo.with.log" % nn, 2),
